@@ -308,11 +308,11 @@ def render(case):
 
 
 def nested_all_in_findall(case, failure=None):
-    """Class of the finding 'an all/3 inside the goal of a findall/3 repeats the outer element once per proof of the
-    inner list': some findall goal of the program contains an all/3."""
+    """Class of the finding 'an all/3 or findall/3 inside the goal of a findall/3 repeats the outer element once per
+    branch of the inner list's condition node': some findall goal of the program contains an all/3 or findall/3."""
     def has(g, inside):
         k = g[0]
-        if k == "all" and inside:
+        if k in ("all", "findall") and inside:
             return True
         if k in ("and", "or"):
             return any(has(x, inside) for x in g[1])
